@@ -367,7 +367,9 @@ pub fn run_c05(ctx: &Ctx) -> Report {
         let mut accts: Vec<(Pubkey, Option<Vec<u8>>)> = (0..na).map(|_| { let a = gen_acct(&mut rng, &w); (a.key, if rng.chance(1, 6) { None } else { Some(a.data) }) }).collect();
         // instruction / account data whose length crosses 2^16 (and 2^24): a multiple of 65536 plus a little
         if !to_coq && k % 37 == 5 {
-            let big_len = |rng: &mut Rng| (if rng.chance(1, 12) { 160usize } else { rng.range(1, 2) as usize }) * 65536 + *rng.pick(&[0usize, 1, 7, 33, 300]);
+            thread_local! { static MINED_LENS: Vec<usize> = crate::mined_ints("tlv-account-resolution/src", 300, 32 * 1024 * 1024).into_iter().rev().take(4).collect(); }
+            let mined_len: Option<usize> = MINED_LENS.with(|m| if !m.is_empty() && rng.chance(1, 3) { Some(*rng.pick(m) + *rng.pick(&[0usize, 1, 2])) } else { None });
+            let big_len = |rng: &mut Rng| mined_len.unwrap_or((if rng.chance(1, 12) { 160usize } else { rng.range(1, 2) as usize }) * 65536 + *rng.pick(&[0usize, 1, 7, 33, 300]));
             // only the first 600 bytes can be addressed by a u8 index + u8 length: random there, a pattern behind
             let big_bytes = |rng: &mut Rng, l: usize| { let mut v = rng.bytes(600.min(l)); v.resize(l, 0xa5); v };
             rep.count("data:>=64KiB");
